@@ -97,7 +97,7 @@ static void do_trigger(void)
 
 struct case_budget chk_budget(const char *tier)
 {
-        struct case_budget b = { 0, strcmp(tier, "thorough") == 0 ? 150000 : 8000 };
+        struct case_budget b = { 0, strcmp(tier, "thorough") == 0 ? 600000 : 25000 };
         return b;
 }
 void chk_run_case(uint64_t seed, long c, bool is_sweep)
